@@ -1,13 +1,580 @@
-//! C03 — not implemented yet (stub so that props/mod.rs never has to change).
-use crate::engine::PropSpec;
+//! C03 — Every crash point or failed write leaves only fully readable snapshots.
+//!
+//! Generated: a pre-state (short history) and one command under test. The command is run once on
+//! a recording backend to obtain its ordered log of storage-changing operations; then
+//! * crash: for EVERY prefix length k the state "pre-state + first k operations" is materialised,
+//! * fault: for EVERY k the command is re-run with its k-th storage-changing operation failing
+//!   (not applied / applied but reported as failed),
+//! and on each resulting state every visible snapshot must be completely readable through a fresh
+//! handle, pre-existing snapshots must still hold their model content, and a command whose storage
+//! operation failed must not report success.
+
+use std::{collections::BTreeSet, sync::Arc};
+
+use proptest::prelude::*;
+use rustic_core::{
+    BackupOptions, ConfigOptions, FileType, KeyOptions, RepairIndexOptions, RepairSnapshotsOptions,
+    RewriteOptions, RewriteTreesOptions,
+    repofile::{KeyId, SnapshotFile},
+};
+use serde::{Deserialize, Serialize};
+
+use crate::{
+    engine::{Ctx, DynSub, Outcome, PropSpec, Sub, guarded, pick_idx},
+    r#gen::{Edit, apply_edit, edit, tree},
+    history::{HOp, PruneCfg, World, hop, prune_cfg},
+    inspect::{index_view, reachable, to_id},
+    membe::{FailMode, Files, MemBackend, Storage, count_applied_mut, id_bytes, materialise_prefix},
+    model::{Flat, MNode, ReadSchedule, flatten},
+    repo::{
+        CmpOpts, RepoCfg, backup_tree, compare, estr, force_opts, init_repo, open_full, open_ids,
+        open_repo, read_snapshot, repo_cfg, snap_template,
+    },
+};
+
+#[derive(Debug, Clone, Serialize, Deserialize, PartialEq, Eq)]
+pub enum Cmd {
+    Backup { edits: Vec<Edit>, parent: bool },
+    /// copy all snapshots of a second repository (a variant of the tree) into this one
+    CopyInto { edits: Vec<Edit> },
+    Merge,
+    Rewrite { forget: bool, sel: u16 },
+    /// after losing one data pack (+ repair index), repair the snapshots
+    RepairSnapshots { delete: bool, sel: u16 },
+    /// repair the index; `damage`: 0 nothing, 1 an index file removed, 2 read-all
+    RepairIndex { damage: u8, sel: u16 },
+    Forget { sel: u16 },
+    Prune(PruneCfg),
+    ApplyConfig { compression: i32, extra_verify: bool },
+    AddKey,
+    DeleteKey,
+}
+
+#[derive(Debug, Clone, Serialize, Deserialize)]
+pub struct Case {
+    pub cfg: RepoCfg,
+    pub tree: MNode,
+    pub pre: Vec<HOp>,
+    pub cmd: Cmd,
+    /// latency seeds used to record further linearisations (thorough)
+    pub lat: Vec<u64>,
+}
+
+fn strategy(ctx: &Ctx) -> BoxedStrategy<Case> {
+    let thorough = ctx.tier.is_thorough();
+    repo_cfg()
+        .prop_flat_map(move |cfg| {
+            let mut p = super::c07::params(&cfg);
+            p.file_cap = 60_000;
+            p.max_children = 3;
+            let edits = || prop::collection::vec(edit(p), 0..3);
+            let cmd = prop_oneof![
+                4 => (edits(), any::<bool>()).prop_map(|(edits, parent)| Cmd::Backup { edits, parent }),
+                2 => edits().prop_map(|edits| Cmd::CopyInto { edits }),
+                1 => Just(Cmd::Merge),
+                2 => (any::<bool>(), any::<u16>()).prop_map(|(forget, sel)| Cmd::Rewrite { forget, sel }),
+                3 => (any::<bool>(), any::<u16>()).prop_map(|(delete, sel)| Cmd::RepairSnapshots { delete, sel }),
+                3 => (0u8..3, any::<u16>()).prop_map(|(damage, sel)| Cmd::RepairIndex { damage, sel }),
+                1 => any::<u16>().prop_map(|sel| Cmd::Forget { sel }),
+                5 => prune_cfg().prop_map(|mut p| {
+                    // the documented-unsafe combination is excluded
+                    p.early_delete_index = false;
+                    Cmd::Prune(p)
+                }),
+                1 => (1i32..6, any::<bool>()).prop_map(|(compression, extra_verify)| Cmd::ApplyConfig { compression, extra_verify }),
+                1 => Just(Cmd::AddKey),
+                1 => Just(Cmd::DeleteKey),
+            ];
+            (
+                Just(cfg),
+                tree(p),
+                prop::collection::vec(
+                    hop(p, false).prop_map(|mut o| {
+                        if let HOp::Prune(p) = &mut o {
+                            p.early_delete_index = false;
+                        }
+                        o
+                    }),
+                    0..4,
+                ),
+                cmd,
+                prop::collection::vec(any::<u64>(), if thorough { 2 } else { 1 }),
+            )
+        })
+        .prop_map(|(cfg, tree, pre, cmd, lat)| Case { cfg, tree, pre, cmd, lat })
+        .boxed()
+}
+
+#[derive(Clone)]
+struct Env {
+    cfg: RepoCfg,
+    /// source repository for CopyInto (never disturbed)
+    src: Option<(Arc<Storage>, RepoCfg, Vec<SnapshotFile>, Arc<Flat>)>,
+    /// tree to back up for Cmd::Backup
+    new_tree: MNode,
+    snaps: Vec<SnapshotFile>,
+    key_to_delete: Option<KeyId>,
+    time: i64,
+}
+
+/// run the command under test through the handle `be`
+fn run_cmd(cmd: &Cmd, be: &MemBackend, env: &Env) -> Result<(), String> {
+    let r = guarded(|| -> Result<(), String> {
+        match cmd {
+            Cmd::Backup { parent, .. } => {
+                let repo = open_repo(be.clone(), &env.cfg)?.to_indexed_ids().map_err(|e| estr(&e))?;
+                let opts: BackupOptions = if *parent { BackupOptions::default() } else { force_opts() };
+                backup_tree(&repo, &env.new_tree, &ReadSchedule::default(), &opts, snap_template(env.time, "host", "", "")).map(|_| ())
+            }
+            Cmd::CopyInto { .. } => {
+                let (src, scfg, snaps, _) = env.src.as_ref().unwrap();
+                let from = open_full(src, scfg)?;
+                let to = open_repo(be.clone(), &env.cfg)?.to_indexed_ids().map_err(|e| estr(&e))?;
+                from.copy(&to, snaps.iter()).map_err(|e| format!("copy: {}", estr(&e)))
+            }
+            Cmd::Merge => {
+                let repo = open_repo(be.clone(), &env.cfg)?.to_indexed().map_err(|e| estr(&e))?;
+                let cmp = |a: &rustic_core::repofile::Node, b: &rustic_core::repofile::Node| a.meta.mtime.cmp(&b.meta.mtime);
+                repo.merge_snapshots(&env.snaps, &cmp, snap_template(env.time, "host", "", "merged"))
+                    .map(|_| ())
+                    .map_err(|e| format!("merge: {}", estr(&e)))
+            }
+            Cmd::Rewrite { forget, sel } => {
+                let repo = open_repo(be.clone(), &env.cfg)?.to_indexed().map_err(|e| estr(&e))?;
+                let mut topts = RewriteTreesOptions::default();
+                // exclude one top-level entry of the source tree (plain names only), else everything named "a"
+                let names: Vec<String> = env
+                    .new_tree
+                    .children()
+                    .iter()
+                    .filter_map(|c| String::from_utf8(c.name.clone()).ok())
+                    .filter(|n| n.chars().all(|c| c.is_ascii_alphanumeric()))
+                    .collect();
+                let name = if names.is_empty() { "a".to_string() } else { names[pick_idx(*sel, names.len())].clone() };
+                topts.excludes.globs = vec![format!("!{name}")];
+                repo.rewrite_snapshots_and_trees(env.snaps.clone(), &RewriteOptions::default().forget(*forget), &topts)
+                    .map(|_| ())
+                    .map_err(|e| format!("rewrite: {}", estr(&e)))
+            }
+            Cmd::RepairSnapshots { delete, .. } => {
+                let repo = open_repo(be.clone(), &env.cfg)?.to_indexed().map_err(|e| estr(&e))?;
+                repo.repair_snapshots(&RepairSnapshotsOptions::default().delete(*delete), env.snaps.clone(), false)
+                    .map_err(|e| format!("repair snapshots: {}", estr(&e)))
+            }
+            Cmd::RepairIndex { damage, .. } => {
+                let repo = open_repo(be.clone(), &env.cfg)?;
+                repo.repair_index(&RepairIndexOptions::default().read_all(*damage == 2), false)
+                    .map_err(|e| format!("repair index: {}", estr(&e)))
+            }
+            Cmd::Forget { sel } => {
+                let repo = open_repo(be.clone(), &env.cfg)?;
+                if env.snaps.is_empty() {
+                    return Ok(());
+                }
+                let id = env.snaps[pick_idx(*sel, env.snaps.len())].id;
+                repo.delete_snapshots(&[id]).map_err(|e| format!("forget: {}", estr(&e)))
+            }
+            Cmd::Prune(p) => {
+                let repo = open_repo(be.clone(), &env.cfg)?;
+                let opts = p.options(&env.cfg);
+                let plan = repo.prune_plan(&opts).map_err(|e| format!("prune_plan: {}", estr(&e)))?;
+                repo.prune(&opts, plan).map_err(|e| format!("prune: {}", estr(&e)))
+            }
+            Cmd::ApplyConfig { compression, extra_verify } => {
+                let mut repo = open_repo(be.clone(), &env.cfg)?;
+                let mut o = ConfigOptions::default();
+                if env.cfg.version >= 2 {
+                    o.set_compression = Some(*compression);
+                }
+                o.set_extra_verify = Some(*extra_verify);
+                o.set_treepack_size = Some(bytesize::ByteSize(12_345));
+                repo.apply_config(&o).map(|_| ()).map_err(|e| format!("apply_config: {}", estr(&e)))
+            }
+            Cmd::AddKey => {
+                let repo = open_repo(be.clone(), &env.cfg)?;
+                repo.add_key("second password", &KeyOptions::default())
+                    .map(|_| ())
+                    .map_err(|e| format!("add_key: {}", estr(&e)))
+            }
+            Cmd::DeleteKey => {
+                let repo = open_repo(be.clone(), &env.cfg)?;
+                match &env.key_to_delete {
+                    Some(id) => repo.delete_key(id).map_err(|e| format!("delete_key: {}", estr(&e))),
+                    None => Ok(()),
+                }
+            }
+        }
+    });
+    match r {
+        Ok(x) => x,
+        Err(p) => Err(format!("PANIC: {p}")),
+    }
+}
+
+#[derive(Clone, Copy, PartialEq, Eq)]
+enum Removal {
+    /// the command never removes snapshots
+    Never,
+    /// the command removes snapshots without replacement (forget)
+    Plain,
+    /// a snapshot may disappear only when a replacement with the same time is present
+    IfReplaced,
+}
+
+struct Expect<'a> {
+    pre: &'a [(SnapshotFile, Arc<Flat>)],
+    /// content a NEW snapshot must have, where the command defines it (backup, copy)
+    new_models: Vec<Arc<Flat>>,
+    removal: Removal,
+}
+
+/// the invariant on one materialised state
+fn verify_state(files: Files, cfg: &RepoCfg, ex: &Expect<'_>) -> Result<usize, String> {
+    let storage = Storage::from_files(files);
+    let present: BTreeSet<[u8; 32]> = storage.ids(FileType::Snapshot).iter().map(id_bytes).collect();
+    for (s, _) in ex.pre {
+        if !present.contains(&id_bytes(&s.id)) && ex.removal == Removal::Never {
+            return Err(format!("pre-existing snapshot {} disappeared", s.id));
+        }
+    }
+    if present.is_empty() {
+        // nothing visible: still the repository must open
+        open_repo(storage.handle(), cfg).map_err(|e| format!("repository cannot be opened any more: {e}"))?;
+        return Ok(0);
+    }
+    let full = open_full(&storage, cfg).map_err(|e| format!("snapshots are visible but the repository/index cannot be loaded: {e}"))?;
+    let all = match guarded(|| full.get_all_snapshots()) {
+        Ok(Ok(a)) => a,
+        Ok(Err(e)) => return Err(format!("visible snapshot files cannot be read: {}", estr(&e))),
+        Err(p) => return Err(format!("listing snapshots panicked: {p}")),
+    };
+    let key = cfg.key64();
+    let view = index_view(&storage, &key).map_err(|e| format!("index unreadable: {e}"))?;
+    for s in &all {
+        let got = read_snapshot(&full, s, true).map_err(|e| format!("visible snapshot {} cannot be read completely: {e}", s.id))?;
+        // cross-check with the independent reader: every referenced blob exists and hashes
+        reachable(&storage, &key, &view, &id_bytes(&s.tree))
+            .map_err(|e| format!("visible snapshot {}: {e}", s.id))?;
+        if let Some((_, m)) = ex.pre.iter().find(|(p, _)| p.id == s.id) {
+            if let Some(d) = compare(m, &got, &CmpOpts { full_meta: true, content: true }) {
+                return Err(format!("pre-existing snapshot {} lost its content: {d}", s.id));
+            }
+        } else if !ex.new_models.is_empty() {
+            let ok = ex
+                .new_models
+                .iter()
+                .any(|m| compare(m, &got, &CmpOpts { full_meta: true, content: true }).is_none());
+            if !ok {
+                return Err(format!("new snapshot {} is readable but does not have the content the command was given", s.id));
+            }
+        }
+    }
+    if ex.removal == Removal::IfReplaced {
+        for (s, _) in ex.pre {
+            if !present.contains(&id_bytes(&s.id)) && !all.iter().any(|n| n.id != s.id && n.time == s.time) {
+                return Err(format!("snapshot {} was removed but no replacement is visible", s.id));
+            }
+        }
+    }
+    Ok(all.len())
+}
+
+pub fn run(c: &Case, ctx: &Ctx) -> Outcome {
+    let mut out = Outcome::pass();
+    macro_rules! fail {
+        ($($arg:tt)*) => {{
+            out.failure = Some(format!($($arg)*));
+            return out;
+        }};
+    }
+    // ---- pre-state
+    let mut w = match World::new(&c.cfg, &c.tree) {
+        Ok(w) => w,
+        Err(e) => fail!("{e}"),
+    };
+    let first = HOp::Backup { edits: vec![], parent: false };
+    for op in std::iter::once(&first).chain(c.pre.iter()) {
+        if let Err(e) = w.step(op) {
+            fail!("building the pre-state: {e}");
+        }
+    }
+    if w.live.is_empty() {
+        if let Err(e) = w.step(&first) {
+            fail!("building the pre-state: {e}");
+        }
+    }
+    let key = c.cfg.key64();
+    let mut env = Env {
+        cfg: c.cfg.clone(),
+        src: None,
+        new_tree: w.tree.clone(),
+        snaps: w.live.iter().map(|l| l.snap.clone()).collect(),
+        key_to_delete: None,
+        time: w.clock + 100,
+    };
+    let mut new_models: Vec<Arc<Flat>> = Vec::new();
+    let mut removal = Removal::Never;
+    // command-specific preparation of the pre-state
+    match &c.cmd {
+        Cmd::Backup { edits, .. } => {
+            for e in edits {
+                _ = apply_edit(&mut env.new_tree, e, 4242);
+            }
+            new_models.push(Arc::new(flatten(&env.new_tree)));
+        }
+        Cmd::CopyInto { edits } => {
+            let mut scfg = c.cfg.clone();
+            scfg.key_seed += 17;
+            let src = Storage::new();
+            if let Err(e) = init_repo(src.handle(), &scfg) {
+                fail!("{e}");
+            }
+            let mut t = w.tree.clone();
+            for e in edits {
+                _ = apply_edit(&mut t, e, 777);
+            }
+            let snap = {
+                let repo = match open_ids(&src, &scfg) {
+                    Ok(r) => r,
+                    Err(e) => fail!("{e}"),
+                };
+                match backup_tree(&repo, &t, &ReadSchedule::default(), &force_opts(), snap_template(1_650_000_000, "src", "", "")) {
+                    Ok(s) => s,
+                    Err(e) => fail!("{e}"),
+                }
+            };
+            let m = Arc::new(flatten(&t));
+            new_models.push(m.clone());
+            env.src = Some((src, scfg, vec![snap], m));
+        }
+        Cmd::Rewrite { forget, .. } => {
+            if *forget {
+                removal = Removal::IfReplaced;
+            }
+        }
+        Cmd::RepairSnapshots { delete, sel } => {
+            // lose a data pack, repair the index (outside the command under test)
+            if let Ok(view) = index_view(&w.storage, &key) {
+                let mut packs: Vec<_> = view
+                    .packs
+                    .iter()
+                    .filter(|(_, b)| !b.is_empty() && b.iter().all(|x| x.0 == vpcore::fmt::BType::Data))
+                    .collect();
+                packs.sort_by_key(|(_, b)| b.iter().map(|x| x.1).min());
+                if !packs.is_empty() {
+                    let victim = *packs[pick_idx(*sel, packs.len())].0;
+                    _ = w.storage.del(FileType::Pack, &to_id(&victim));
+                    if let Err(e) = crate::cmds::repair_index(&w.storage, &c.cfg, false, false) {
+                        fail!("preparing the damaged pre-state: {e}");
+                    }
+                    out = out.class("damaged_before_repair");
+                }
+            }
+            if *delete {
+                removal = Removal::IfReplaced;
+            }
+        }
+        Cmd::RepairIndex { damage, sel } => {
+            if *damage == 1 {
+                let ids = w.storage.ids(FileType::Index);
+                if !ids.is_empty() {
+                    _ = w.storage.del(FileType::Index, &ids[pick_idx(*sel, ids.len())]);
+                }
+            }
+        }
+        Cmd::Forget { .. } => removal = Removal::Plain,
+        Cmd::DeleteKey => {
+            let be = w.storage.handle();
+            match guarded(|| open_repo(be, &c.cfg).and_then(|r| r.add_key("to be deleted", &KeyOptions::default()).map_err(|e| estr(&e)))) {
+                Ok(Ok(id)) => env.key_to_delete = Some(id),
+                Ok(Err(e)) => fail!("preparing a key: {e}"),
+                Err(p) => fail!("preparing a key panicked: {p}"),
+            }
+        }
+        _ => {}
+    }
+    // which pre-existing snapshots are expected to be readable: those that are readable now
+    // (a lost pack makes some unreadable before the command under test even starts)
+    let mut pre: Vec<(SnapshotFile, Arc<Flat>)> = Vec::new();
+    {
+        let full = match open_full(&w.storage, &c.cfg) {
+            Ok(f) => f,
+            Err(e) => fail!("pre-state: {e}"),
+        };
+        for l in &w.live {
+            if let Ok(got) = read_snapshot(&full, &l.snap, true) {
+                if compare(&l.model, &got, &CmpOpts { full_meta: true, content: true }).is_none() {
+                    pre.push((l.snap.clone(), l.model.clone()));
+                }
+            }
+        }
+    }
+    let damaged_pre = pre.len() != w.live.len();
+    let base: Files = w.storage.files();
+    let ex = Expect {
+        pre: &pre,
+        new_models,
+        removal,
+    };
+    // with a damaged pre-state the damaged snapshots are visible but unreadable from the start:
+    // the invariant is then judged on the snapshots that were readable before the command
+    let judge = |files: Files| -> Result<usize, String> {
+        if damaged_pre {
+            verify_damaged(files, &c.cfg, &ex, &w)
+        } else {
+            verify_state(files, &c.cfg, &ex)
+        }
+    };
+
+    // ---- record (one or more linearisations)
+    let mut logs: Vec<Vec<crate::membe::Op>> = Vec::new();
+    let mut seeds: Vec<Option<u64>> = vec![None];
+    seeds.extend(c.lat.iter().copied().map(Some));
+    for seed in seeds {
+        let st = Storage::from_files(base.clone());
+        let be = st.handle();
+        if let Some(s) = seed {
+            be.control(|ctl| ctl.latency = Some((s, 300, 1500)));
+        }
+        if let Err(e) = run_cmd(&c.cmd, &be, &env) {
+            fail!("the command under test fails on an undisturbed backend: {e}");
+        }
+        let log: Vec<_> = st.log.snapshot().into_iter().filter(|o| o.kind.mutating() && o.applied).collect();
+        if let Err(e) = judge(st.files()) {
+            fail!("after the complete, undisturbed command: {e}");
+        }
+        let sig: Vec<_> = log.iter().map(|o| (o.kind, o.tpe, o.id)).collect();
+        if !logs.iter().any(|l: &Vec<crate::membe::Op>| l.iter().map(|o| (o.kind, o.tpe, o.id)).collect::<Vec<_>>() == sig) {
+            logs.push(log);
+        }
+    }
+    let n = logs[0].len();
+    out = out
+        .class(format!("cmd_{}", cmd_name(&c.cmd)))
+        .count("storage_ops", n as u64)
+        .count("linearisations", logs.len() as u64);
+
+    // ---- crash points: every prefix of every observed linearisation
+    let mut states = 0u64;
+    for log in &logs {
+        for k in 0..=count_applied_mut(log) {
+            let files = materialise_prefix(&base, log, k);
+            states += 1;
+            if let Err(e) = judge(files) {
+                let op = log.get(k.saturating_sub(1));
+                fail!(
+                    "crash after {k} of {} storage operations of `{}` (last applied: {}): {e}",
+                    log.len(),
+                    cmd_name(&c.cmd),
+                    op.map_or("none".to_string(), |o| format!("{:?} {} {:?}", o.kind, o.tpe, o.id))
+                );
+            }
+        }
+    }
+    // ---- single faults
+    let mut panics = 0u64;
+    let quick_cap = if ctx.tier.is_thorough() { usize::MAX } else { 40 };
+    for k in 0..n.min(quick_cap) {
+        for mode in [FailMode::NotApplied, FailMode::AppliedButReported] {
+            let st = Storage::from_files(base.clone());
+            let be = st.handle();
+            be.control(|ctl| ctl.fail_mut_at = Some((k, mode)));
+            let res = run_cmd(&c.cmd, &be, &env);
+            let hit = be.control(|ctl| ctl.fail_hit);
+            states += 1;
+            match res {
+                Ok(()) if hit => {
+                    let op = &logs[0][k.min(logs[0].len() - 1)];
+                    fail!(
+                        "`{}` reported success although its storage operation #{k} ({:?} {}) failed ({mode:?})",
+                        cmd_name(&c.cmd),
+                        op.kind,
+                        op.tpe
+                    );
+                }
+                Err(e) if e.starts_with("PANIC") => panics += 1,
+                _ => {}
+            }
+            if let Err(e) = judge(st.files()) {
+                fail!("after storage operation #{k} of `{}` failed ({mode:?}): {e}", cmd_name(&c.cmd));
+            }
+        }
+    }
+    out = out.count("states_checked", states).count("panics_on_fault", panics);
+    out.nontrivial = n >= 3;
+    out
+}
+
+/// variant of the invariant for a pre-state that already contains damaged snapshots: only the
+/// snapshots that were readable before, and new ones, are judged
+fn verify_damaged(files: Files, cfg: &RepoCfg, ex: &Expect<'_>, w: &World) -> Result<usize, String> {
+    let storage = Storage::from_files(files);
+    let full = open_full(&storage, cfg).map_err(|e| format!("repository/index cannot be loaded: {e}"))?;
+    let all = match guarded(|| full.get_all_snapshots()) {
+        Ok(Ok(a)) => a,
+        Ok(Err(e)) => return Err(format!("visible snapshot files cannot be read: {}", estr(&e))),
+        Err(p) => return Err(format!("listing snapshots panicked: {p}")),
+    };
+    let damaged: BTreeSet<_> = w
+        .live
+        .iter()
+        .filter(|l| !ex.pre.iter().any(|(p, _)| p.id == l.snap.id))
+        .map(|l| l.snap.id)
+        .collect();
+    for s in &all {
+        if damaged.contains(&s.id) {
+            continue;
+        }
+        let got = read_snapshot(&full, s, true).map_err(|e| format!("visible snapshot {} cannot be read completely: {e}", s.id))?;
+        if let Some((_, m)) = ex.pre.iter().find(|(p, _)| p.id == s.id) {
+            if let Some(d) = compare(m, &got, &CmpOpts { full_meta: true, content: true }) {
+                return Err(format!("pre-existing snapshot {} lost its content: {d}", s.id));
+            }
+        }
+    }
+    for (s, _) in ex.pre {
+        if !all.iter().any(|a| a.id == s.id) && ex.removal == Removal::Never {
+            return Err(format!("pre-existing snapshot {} disappeared", s.id));
+        }
+    }
+    Ok(all.len())
+}
+
+fn cmd_name(c: &Cmd) -> &'static str {
+    match c {
+        Cmd::Backup { .. } => "backup",
+        Cmd::CopyInto { .. } => "copy",
+        Cmd::Merge => "merge",
+        Cmd::Rewrite { .. } => "rewrite",
+        Cmd::RepairSnapshots { .. } => "repair-snapshots",
+        Cmd::RepairIndex { .. } => "repair-index",
+        Cmd::Forget { .. } => "forget",
+        Cmd::Prune(_) => "prune",
+        Cmd::ApplyConfig { .. } => "config",
+        Cmd::AddKey => "add-key",
+        Cmd::DeleteKey => "delete-key",
+    }
+}
 
 pub fn spec() -> PropSpec {
     PropSpec {
         id: "C03",
-        level: "exploration",
-        rule: "",
-        assumptions: vec![],
-        subs: vec![],
+        level: "fault_enumeration",
+        rule: "proptest generates (configuration, source tree, pre-state history of 0–3 backup/forget/prune operations, command under test ∈ {backup with/without parent, copy into, merge, rewrite ±forget, repair snapshots ±delete after a pack loss, repair index (intact / index file missing / read-all), forget, prune with generated options except instant-delete+early-delete-index, config change, add key, delete key}); for each pair the command's storage-operation log is recorded (plus further linearisations under seeded latency) and then enumerated exhaustively: every prefix length (crash) and every single failing operation in two modes (not applied; applied but reported as failed; capped at the first 40 operations in the quick tier). Non-trivial = the command issues ≥3 storage-changing operations; distinct by hash of the case. `states_checked` in the sub counters is the number of materialised states judged.",
+        assumptions: vec![
+            "single storage operations are atomic (as the backends promise); torn writes are out of scope",
+            "only observed linearisations of the command's concurrent writers are enumerated",
+            "a panic after an injected failure counts as 'did not report success' and is tallied separately",
+            "for commands whose new snapshot content is not given by the input (merge, rewrite, repair) a new snapshot must be completely readable (library reader and independent blob walk); for backup and copy it must equal the model",
+        ],
+        subs: vec![Box::new(Sub {
+            name: "crashfault",
+            cases_quick: 600,
+            cases_thorough: 3000,
+            max_shrink_iters: 60,
+            strategy,
+            run,
+        }) as Box<dyn DynSub>],
         extra: None,
     }
 }
